@@ -1,4 +1,5 @@
-import SqiProofs.CurveDblmulBounded
+import SqiProofs.CurveBoundary
+import SqiProofs.BasisAlg
 
 /-! # C08 — x-only Montgomery curve arithmetic implements the elliptic-curve group law
 
@@ -14,6 +15,7 @@ models of `SqiModel.Ladder` (run against the C functions by the correspondence h
 formulas. Every theorem is for **all** points (incl. `∞` and 2-torsion where stated), all representatives, and bit
 lists / scalars of **any length**. -/
 
+set_option linter.unusedSectionVars false
 namespace SqiProps.C08
 open WeierstrassCurve SqiGen SqiModel.Ladder SqiProofs.Curve
 
@@ -357,6 +359,83 @@ theorem iso_maps_curve {a a' s r x : F} (h1 : s ^ 2 * (3 * r ^ 2 + 2 * a * r + 1
     (h3 : r ^ 3 + a * r ^ 2 + r = 0) :
     (s * (x - r)) ^ 3 + a' * (s * (x - r)) ^ 2 + s * (x - r) = s ^ 3 * (x ^ 3 + a * x ^ 2 + x) :=
   iso_on_curve h1 h2 h3
+
+/-- **j is an isomorphism invariant** (used by C20): two Montgomery coefficients related by a map `x ↦ s (x - r)`
+satisfying the conditions of `iso_maps_curve` have the same `256 (a²-3)³/(a²-4)` — so `ec_j_inv` (by `ec_j_inv_correct`)
+returns the same value on both curves, whatever `(A : C)` representatives. -/
+theorem j_invariant_under_isomorphism {a a' s r : F} (h1 : s ^ 2 * (3 * r ^ 2 + 2 * a * r + 1) = 1)
+    (h2 : a' = s * (a + 3 * r)) (h3 : r ^ 3 + a * r ^ 2 + r = 0) (hns : a ^ 2 - 4 ≠ 0) (hns' : a' ^ 2 - 4 ≠ 0) :
+    256 * (a' ^ 2 - 3) ^ 3 / (a' ^ 2 - 4) = 256 * (a ^ 2 - 3) ^ 3 / (a ^ 2 - 4) :=
+  iso_j_eq h1 h2 h3 hns hns'
+
+theorem ec_j_inv_isomorphism_invariant {a a' s r : F} (h2c : (2 : F) ≠ 0)
+    (h1 : s ^ 2 * (3 * r ^ 2 + 2 * a * r + 1) = 1) (h2 : a' = s * (a + 3 * r)) (h3 : r ^ 3 + a * r ^ 2 + r = 0)
+    (hns : a ^ 2 - 4 ≠ 0) (hns' : a' ^ 2 - 4 ≠ 0) (E E' : EcCurve F) (hA : E.A = a * E.C) (hC : E.C ≠ 0)
+    (hA' : E'.A = a' * E'.C) (hC' : E'.C ≠ 0) : ec_j_inv E' = ec_j_inv E := by
+  have e := (ec_j_inv_ok h2c E hA hC hns).1
+  have e' := (ec_j_inv_ok h2c E' hA' hC' hns').1
+  have c := iso_j_cross h1 h2 h3
+  have : ec_j_inv E' * (a' ^ 2 - 4) * (a ^ 2 - 4) = ec_j_inv E * (a' ^ 2 - 4) * (a ^ 2 - 4) := by
+    linear_combination (a ^ 2 - 4) * e' - (a' ^ 2 - 4) * e + 256 * c
+  exact mul_right_cancel₀ hns' (mul_right_cancel₀ hns this)
+
+/-! ## lifting x-only points to (x, y): recover_y, lift_point, lift_basis (Okeya–Sakurai), difference_point -/
+
+/-- `recover_y` returns a y-coordinate for `x` whenever `sqrt` returns a square root of its argument (which is a square
+exactly when `x` is the abscissa of a rational point) -/
+theorem recover_y_correct (sqrt : F → F) (x : F) (E : EcCurve F)
+    (hs : sqrt (x * x * E.A + x + x * x * x) ^ 2 = x * x * E.A + x + x * x * x) :
+    recover_y sqrt x E ^ 2 = x ^ 3 + E.A * x ^ 2 + x :=
+  recover_y_ok sqrt x E hs
+
+theorem lift_point_correct (sqrt : F → F) (Q : EcPoint F) (E : EcCurve F) (a x : F) (hC : E.C ≠ 0) (hA : E.A = a * E.C) :
+    (Q.z = 0 → (lift_point sqrt Q E).1 = ⟨1, 1, 0⟩ ∧ (lift_point sqrt Q E).2.1 = Q ∧ (lift_point sqrt Q E).2.2 = E) ∧
+    (Q.z ≠ 0 → Q.x = x * Q.z →
+      (lift_point sqrt Q E).1.x = x ∧ (lift_point sqrt Q E).1.z = 1 ∧
+      (lift_point sqrt Q E).1.y = recover_y sqrt x ⟨a, 1, E.A24, E.is_A24_computed_and_normalized⟩ ∧
+      (lift_point sqrt Q E).2.1 = ⟨x, 1⟩ ∧ (lift_point sqrt Q E).2.2.A = a ∧ (lift_point sqrt Q E).2.2.C = 1) :=
+  lift_point_ok sqrt Q E a x hC hA
+
+/-- **lift_basis (Okeya–Sakurai).** Given `x(P), x(Q), x(P-Q)`: `P` is lifted with `recover_y`; if that `y(P)` is a
+non-zero square root of the right-hand side, then the returned Jacobian `Q` represents exactly the lift `(x_Q, y_Q)` for
+which `P - Q` has the given third abscissa — the recovered y-coordinates are consistent with the basis. -/
+theorem lift_basis_correct {a : F} (h2 : (2 : F) ≠ 0) (sqrt : F → F) (B : EcBasis F) (E : EcCurve F) (x1 x2 y2 : F)
+    (hPz : B.P.z ≠ 0) (hC : E.C ≠ 0) (hA : E.A = a * E.C) (hP : B.P.x = x1 * B.P.z)
+    (hp : (mont a).Nonsingular x1 (lift_basis sqrt B E).1.y) (hq : (mont a).Nonsingular x2 y2)
+    (hx : x1 ≠ x2) (hy : (lift_basis sqrt B E).1.y ≠ 0)
+    (hQ : IsX (Affine.Point.some x2 y2 hq) B.Q.x B.Q.z)
+    (hD : IsX (Affine.Point.some x1 _ hp - Affine.Point.some x2 y2 hq) B.PmQ.x B.PmQ.z) :
+    IsJac (Affine.Point.some x1 _ hp) (lift_basis sqrt B E).1 ∧
+    IsJac (Affine.Point.some x2 y2 hq) (lift_basis sqrt B E).2.1 :=
+  lift_basis_isJac h2 sqrt B E x1 x2 y2 hPz hC hA hP hp hq hx hy hQ hD
+
+/-- `difference_point` (basis.c): proved by engineer a9 over the generated definition (`SqiProps.C10`,
+`difference_point_is_xPmQ_or_xPpQ`, `difference_point_generated`); re-exported here: the returned `(X : Z)` is the abscissa
+of `P - Q` or of `P + Q` for any square root `s` of the radicand. -/
+theorem difference_point_correct (A xP yP xQ yQ s : F) (hne : xP ≠ xQ)
+    (hP : yP ^ 2 = xP ^ 3 + A * xP ^ 2 + xP) (hQ : yQ ^ 2 = xQ ^ 3 + A * xQ ^ 2 + xQ)
+    (hs : s ^ 2 = SqiProofs.BasisAlg.diffRad A xP xQ) :
+    (s + SqiProofs.BasisAlg.diffT1 A xP xQ) / SqiProofs.BasisAlg.diffZ xP xQ
+        = ((yQ - yP) / (xQ - xP)) ^ 2 - A - xP - xQ ∨
+    (s + SqiProofs.BasisAlg.diffT1 A xP xQ) / SqiProofs.BasisAlg.diffZ xP xQ
+        = ((-yQ - yP) / (xQ - xP)) ^ 2 - A - xP - xQ :=
+  SqiProofs.BasisAlg.difference_point_affine A xP yP xQ yQ s hne hP hQ hs
+
+/-! ## the exact boundary: the four known findings are the complement of the theorems above -/
+
+/-- (finding 1) base point `(0 : Z)` = the 2-torsion point `(0,0)`, excluded from `xMUL_correct` by `P.x ≠ 0`: the ladder
+returns `Z = 0` for every scalar, which is right for even and wrong for odd scalars (`T00_odd`). -/
+theorem xMUL_T00 (A24 : EcPoint F) (Z : F) (bits : List Bool) : (xMULbits bits ⟨0, Z⟩ A24).z = 0 :=
+  xMULbits_T00 A24 Z bits
+
+theorem T00_odd (a : F) (n : Nat) (hn : n % 2 = 1) (X : F) :
+    ¬ IsX (n • Affine.Point.some 0 0 (nonsingular_T00 a)) X 0 :=
+  T00_odd_multiple a n hn X
+
+/-- (finding 4) `DBL` on a point of order 2: `Z = 0` but `X ≠ 0` — the one exception in `DBL_canonical` / `ADD_correct`. -/
+theorem DBL_order2 {a : F} (AC : EcCurve F) (hA : AC.A = a) (x : F) (h : (mont a).Nonsingular x 0)
+    (J : JacPoint F) (hJ : IsJac (Affine.Point.some x 0 h) J) : (DBL J AC).z = 0 ∧ (DBL J AC).x ≠ 0 :=
+  DBL_order2_noncanonical AC hA x h J hJ
 
 /-! ## non-vacuity: a concrete curve and point satisfying the hypotheses (over ℚ) -/
 
